@@ -293,8 +293,10 @@ def equal(interp, a, b):
         d = ctx.data(o)
         if d.kind == 'list' and isinstance(other, (list, tuple)) and d.symlen is None:
             return list(d.items) == list(other)
-        if other is None or is_concrete(other):
-            return False
+        if other is None or is_concrete(other) or is_z3(other) or isinstance(other, (SymStr, TagName)):
+            # instances without __eq__ (ast nodes, plain objects) compare by identity
+            if d.kind in ('node', 'ns') or (d.kind == 'inst' and d.cls is not None and interp.find_class_attr(d.cls, '__eq__')[0] in (object, None)):
+                return False
         raise Undecided('== between object and %r' % (other,))
     if is_concrete(a) and is_concrete(b):
         return a == b
@@ -1027,12 +1029,17 @@ def set_method(interp, recv, d, name, args):
         if 'sym_add' in d.extra:
             return d.extra['sym_add'](interp, args[0])
         if not _hashable_value(args[0]):
-            raise Undecided('set.add of symbolic value')
+            d.extra.setdefault('sym_items', []).append(('add', args[0]))
+            return None
         d.items.add(args[0])
         return None
     if name == 'update':
         ctx.note_write(recv, '<items>')
-        for x in interp.iterate_concrete(args[0]):
+        kind, seq = interp.as_iterable(args[0])
+        if kind != 'concrete':
+            d.extra.setdefault('sym_items', []).append(('update', args[0]))
+            return None
+        for x in seq:
             d.items.add(x)
         return None
     raise Undecided('set method %s' % name)
